@@ -501,8 +501,215 @@ class Scripted(_Base):
         return out
 
 
+# ------------------------------------------------------------------ time-series updates
+
+TS_LATTICE = [0.0, 0.1, 0.25, 0.3001, 1.0, 1.5, -0.5]
+
+
+def _ts_dev(times, k, nf=1, u=1, dev='P1', order='asc'):
+    """One TimeSeries device: rows at `times`, value of row i of device k is fixed by (i, k)."""
+    rows = [dict(t=t, p=round(0.3 + 0.1 * i + 0.05 * k, 6), q=round(0.02 + 0.01 * i + 0.005 * k, 6))
+            for i, t in enumerate(times)]
+    if order == 'desc':
+        rows = rows[::-1]
+    return dict(rows=rows, nf=nf, u=u, dev=dev)
+
+
+class TimeSeriesEvents(Part):
+    """
+    Time-series updates: the fourth event kind named by the property.  A fresh System per execution (the data
+    files are read at set-up).  Alphabet: 1..2 TimeSeries devices x row-time sets from the lattice x one or two
+    fields x enabled / disabled x row order in the file, optionally a coincident Toggle, optionally a resume split.
+    """
+    name = 'tseries'
+    forked = False
+    chunk = 4
+    timeout = 120.0
+
+    def describe(self, tier):
+        return ('static3 + 1..2 TimeSeries devices (csv data written by the harness) driving PQ.Ppf / Qpf; row-time '
+                'sets = all subsets of size <= 2%s of the lattice {0, 0.1, 0.25, 0.3001, tf, tf+0.5, -0.5}; one or two '
+                'fields; enabled / disabled; rows ascending / descending in the file; two devices with all pairs of '
+                'row-time sets of size 1..2 from {0.1, 0.25, tf} (equal and different row counts, same or different '
+                'target); coincident / separate Toggle; resume splits at te-eps, te, te+eps; tstep in {0.1, 1/30}'
+                % (' and 3' if tier == 'thorough' else ''))
+
+    def cases(self, tier):
+        out = []
+        cfgs = [(0.1, 1), (1 / 30, 1)]
+        kmax = 2 if tier == 'quick' else 3
+        sets = []
+        for k in range(1, kmax + 1):
+            sets += [sorted(c) for c in itertools.combinations(TS_LATTICE, k)]
+        for times in sets:
+            for (tstep, fixt) in cfgs:
+                for nf in (1, 2):
+                    out.append(dict(tf=1.0, tstep=tstep, fixt=fixt, devs=[_ts_dev(times, 0, nf=nf)]))
+                out.append(dict(tf=1.0, tstep=tstep, fixt=fixt, devs=[_ts_dev(times, 0, u=0)]))
+            if len(times) > 1:
+                out.append(dict(tf=1.0, tstep=0.1, fixt=1, devs=[_ts_dev(times, 0, order='desc')]))
+        small = []
+        for k in (1, 2):
+            small += [sorted(c) for c in itertools.combinations([0.1, 0.25, 1.0], k)]
+        for a in small:
+            for b in small:
+                for devb in ('P1', 'P2'):
+                    out.append(dict(tf=1.0, tstep=0.1, fixt=1,
+                                    devs=[_ts_dev(a, 0), _ts_dev(b, 1, dev=devb)]))
+                out.append(dict(tf=1.0, tstep=0.1, fixt=1, devs=[_ts_dev(a, 0), _ts_dev(b, 1, dev='P2', u=0)]))
+        # with a Toggle
+        for times in ([0.25], [0.1, 0.25]):
+            for tt in (0.25, 0.3, 0.0):
+                out.append(dict(tf=1.0, tstep=0.1, fixt=1, devs=[_ts_dev(times, 0, nf=2)], toggle=['L3', tt]))
+        # resume
+        for times in ([0.25], [0.25, 0.5], [0.0, 0.25]):
+            for s in (0.1, 0.25 - EPS, 0.25, 0.25 + EPS, 0.4):
+                out.append(dict(tf=1.0, tstep=0.1, fixt=1, devs=[_ts_dev(times, 0)], splits=[s]))
+        # long horizon
+        out.append(dict(tf=13.0, tstep=0.5, fixt=1, devs=[_ts_dev([10.0, 12.3], 0)]))
+        return out
+
+    def execute(self, case):
+        import os
+        import tempfile
+        import pandas as pd
+        out = Outcome()
+        tmp = tempfile.mkdtemp(prefix='c06ts-')
+        tf = case['tf']
+        try:
+            ss = systems.static3(setup=False)
+            for k, d in enumerate(case['devs']):
+                path = os.path.join(tmp, f'ts{k}.csv')
+                pd.DataFrame(d['rows']).to_csv(path, index=False)
+                ss.add('TimeSeries', dict(idx=f'TS{k}', path=path, sheet='x', tkey='t', model='PQ', dev=d['dev'],
+                                          u=d['u'], fields='p,q' if d['nf'] == 2 else 'p',
+                                          dests='Ppf,Qpf' if d['nf'] == 2 else 'Ppf'))
+            if case.get('toggle'):
+                ss.add('Toggle', dict(idx='T0', model='Line', dev=case['toggle'][0], t=case['toggle'][1]))
+            ss.setup()
+            if not ss.PFlow.run():
+                out.bad('pflow_failed', 'power flow of the benign base system failed')
+                return out
+            init = {('P1', 'Ppf'): float(ss.PQ.Ppf.v[0]), ('P2', 'Ppf'): float(ss.PQ.Ppf.v[1]),
+                    ('P1', 'Qpf'): float(ss.PQ.Qpf.v[0]), ('P2', 'Qpf'): float(ss.PQ.Qpf.v[1])}
+            sets, states, toggles = [], [], []
+            orig_set = ss.PQ.set
+
+            def pq_set(src, idx, attr, value):
+                sets.append((float(ss.dae.t), src, idx, float(value)))
+                return orig_set(src, idx, attr, value)
+            ss.PQ.set = pq_set
+            if case.get('toggle'):
+                cb0 = ss.Toggle.t.callback
+
+                def cb(is_time):
+                    if np.any(is_time):
+                        toggles.append(float(ss.dae.t))
+                    return cb0(is_time)
+                ss.Toggle.t.callback = cb
+
+            def snap():
+                return {('P1', 'Ppf'): float(ss.PQ.Ppf.v[0]), ('P2', 'Ppf'): float(ss.PQ.Ppf.v[1]),
+                        ('P1', 'Qpf'): float(ss.PQ.Qpf.v[0]), ('P2', 'Qpf'): float(ss.PQ.Qpf.v[1])}
+            ss.TDS.callpert = lambda t, system: states.append((float(t), snap()))
+            c = ss.TDS.config
+            c.tstep, c.fixt, c.criteria, c.no_tqdm = case['tstep'], case['fixt'], 0, 1
+            rets = []
+            try:
+                for seg in list(case.get('splits', [])) + [tf]:
+                    c.tf = seg
+                    rets.append(bool(ss.TDS.run(no_summary=True)))
+            except Exception as e:
+                import traceback
+                tb = traceback.extract_tb(e.__traceback__)
+                where = tb[-1].name if tb else '?'
+                out.bad(f'exception:{type(e).__name__}@{where}', f'TDS.run raised {type(e).__name__}: {e}')
+                out.obs = dict(exc=type(e).__name__, where=where)
+                return out
+            stamps = [float(x) for x in ss.dae.ts.t]
+            # ---- reference: rows that must be applied, per (device, field)
+            due = []      # (t, target key, value, k)
+            for k, d in enumerate(case['devs']):
+                if not d['u']:
+                    continue
+                for r in d['rows']:
+                    if 0.0 <= r['t'] <= tf:
+                        due.append((r['t'], (d['dev'], 'Ppf'), r['p'], k))
+                        if d['nf'] == 2:
+                            due.append((r['t'], (d['dev'], 'Qpf'), r['q'], k))
+            amb = set()
+            seen_at = {}
+            for t, key, val, k in due:
+                if (t, key) in seen_at and seen_at[(t, key)] != val:
+                    amb.add(key)
+                seen_at[(t, key)] = val
+
+            def fold(upto, strict):
+                st = dict(init)
+                for t, key, val, k in sorted(due, key=lambda x: x[0]):
+                    if (t < upto) if strict else (t <= upto):
+                        st[key] = val
+                return st
+            if not all(rets):
+                out.bad('run_failed', f'run returned {rets} on a benign schedule; err={ss.TDS.err_msg!r}')
+            # 1. every due row applied at exactly its time, nothing applied at another time or by a disabled device
+            for t, key, val, k in due:
+                hits = [s for s in sets if s[1] == key[1] and s[2] == key[0] and s[3] == val]
+                if not hits:
+                    out.bad('row_not_applied:' + ('t0' if t == 0.0 else 'tf' if t == tf else 'interior'),
+                            f'time-series row t={t!r} {key} = {val} was never applied')
+                for h in hits:
+                    if h[0] != t:
+                        out.bad('row_applied_at_wrong_time', f'row t={t!r} {key} applied at {h[0]!r}')
+            legal = {(key[1], key[0], val) for t, key, val, k in due}
+            for (ts, src, idx, val) in sets:
+                if (src, idx, val) not in legal:
+                    out.bad('row_applied_that_is_not_due', f'{src} of {idx} set to {val} at t={ts!r}: no enabled row '
+                            f'inside [t0, tf] says so')
+                    break
+            # 2. value seen while integrating towards t_k = fold of the rows strictly before t_k
+            for tk, st in states:
+                if tk <= 0.0:
+                    continue
+                exp = fold(tk, True)
+                badk = [key for key in exp if key not in amb and abs(st[key] - exp[key]) > 1e-12]
+                if badk:
+                    out.bad('effect_mismatch', f'while stepping to t={tk!r}: {badk[0]} = {st[badk[0]]!r}, '
+                            f'the data say {exp[badk[0]]!r}')
+                    break
+            if all(rets):
+                fin, exp = snap(), fold(tf, False)
+                for key in exp:
+                    if key not in amb and abs(fin[key] - exp[key]) > 1e-12:
+                        out.bad('final_effect_mismatch', f'after the run {key} = {fin[key]!r}, the data say {exp[key]!r}')
+            # 3. time grid
+            for a, b in zip(stamps, stamps[1:]):
+                if not b > a:
+                    out.bad('stamps_not_increasing', f'stored stamps {a!r} -> {b!r}')
+                    break
+            horizon = tf if all(rets) else (stamps[-1] if stamps else -1.0)
+            for te in sorted({t for t, key, val, k in due if 0.0 < t <= horizon}):
+                if te not in stamps:
+                    out.bad('no_step_ends_at_row_time', f'no stored step ends at the row time {te!r}')
+                if any(a < te < b for a, b in zip(stamps, stamps[1:])):
+                    out.bad('step_crosses_row_time', f'a step crosses the row time {te!r}')
+            if all(rets) and (float(ss.dae.t) != tf or not stamps or stamps[-1] != tf):
+                out.bad('success_but_not_at_tf', f'run returned True with dae.t={float(ss.dae.t)!r}')
+            if case.get('toggle'):
+                tt = case['toggle'][1]
+                if toggles != [tt]:
+                    out.bad('toggle_dispatch_wrong_with_timeseries', f'Toggle at {tt!r} dispatched at {toggles}')
+            out.obs = dict(stamps=stamps, sets=sets, rets=rets, final=[list(map(str, k)) + [v] for k, v in sorted(snap().items())])
+            out.nontrivial = bool(sets)
+            out.transitions = len(states)
+            return out
+        finally:
+            import shutil
+            shutil.rmtree(tmp, ignore_errors=True)
+
+
 def parts(tier):
-    return [RealSteps(), Scripted()]
+    return [RealSteps(), Scripted(), TimeSeriesEvents()]
 
 
 def run(run, only=None):
